@@ -49,14 +49,15 @@ def design_level(rep, tier):
     if r.rc != 0 or "Error:" in r.out:
         raise V.ToolError("MC_Asm failed:\n" + V.tail(r.out, 40))
     rep.notes.append("MC_Asm (%s): %d distinct states, depth %d; invariants FixedPoint, Terminates hold" % (os.path.basename(cfg), r.distinct, r.depth))
-    for w in ("ok", "failed", "four", "osc", "stale"):
+    for w in ("ok", "failed", "four", "osc", "stale", "noseg"):
         rv = V.tlc(mc, cfg=os.path.join(SPEC, "MC_Asm_vac_%s.cfg" % w), workers=4, timeout=600, tag="C02-vac-" + w)
         if not rv.invariant_violated:
             raise V.ToolError("vacuous MC_Asm space: no run reaches '%s'" % w)
     rep.notes.append("vacuity witnesses: runs ending ok, ending failed and needing >= 4 passes all exist in the explored space; "
                      "with a constant that shrinks as its label moves up (MC_Asm_vac_osc) TLC exhibits a program without any fixed point "
                      "(`* = 97 / .text \"{c}\" / nop / .const c = 109 - b / b:`), which only the pass bound ends; in the pinned reading that keeps the "
-                     "symbols of earlier passes (MC_Asm_vac_stale) TLC refutes FixedPoint with a forward-reference `.if` that renumbers macro scopes")
+                     "symbols of earlier passes (MC_Asm_vac_stale) TLC refutes FixedPoint with a forward-reference `.if` that renumbers macro scopes; "
+                     "in the pinned reading that drops code in front of the first segment definition in silence (MC_Asm_vac_noseg) it refutes it too")
 
 
 def main(tier):
